@@ -360,8 +360,8 @@ impl<'a> LoweringManager<'a> {
         let mut s2 = s2.iter().flat_map(|it| self.lower_stmt(it)).collect_vec();
         for (n, t, e1, e2) in final_assignments {
           let wasm_type = self.type_cx.lower(t);
-          let e1 = self.lower_expr(e1);
-          let e2 = self.lower_expr(e2);
+          let e1 = self.lower_expr_for_slot(e1, wasm_type);
+          let e2 = self.lower_expr_for_slot(e2, wasm_type);
           s1.push(wasm::Instruction::Inline(self.set(*n, wasm_type, e1)));
           s2.push(wasm::Instruction::Inline(self.set(*n, wasm_type, e2)));
         }
@@ -407,8 +407,8 @@ impl<'a> LoweringManager<'a> {
         let break_collector = *break_collector;
         let break_collector_type = *break_collector_type;
         if let Some(c) = break_collector {
-          let e = self.lower_expr(e);
           let t = break_collector_type.unwrap();
+          let e = self.lower_expr_for_slot(e, t);
           vec![
             wasm::Instruction::Inline(self.set(c, t, e)),
             wasm::Instruction::UnconditionalJump(exit_label),
@@ -430,7 +430,7 @@ impl<'a> LoweringManager<'a> {
           .iter()
           .map(|it| {
             let t = self.type_cx.lower(&it.type_);
-            let e = self.lower_expr(&it.initial_value);
+            let e = self.lower_expr_for_slot(&it.initial_value, t);
             wasm::Instruction::Inline(self.set(it.name, t, e))
           })
           .collect_vec();
@@ -438,7 +438,7 @@ impl<'a> LoweringManager<'a> {
           statements.iter().flat_map(|it| self.lower_stmt(it)).collect_vec();
         for v in loop_variables {
           let t = self.type_cx.lower(&v.type_);
-          let e = self.lower_expr(&v.loop_value);
+          let e = self.lower_expr_for_slot(&v.loop_value, t);
           loop_instructions.push(wasm::Instruction::Inline(self.set(v.name, t, e)));
         }
         loop_instructions.push(wasm::Instruction::UnconditionalJump(continue_label));
@@ -568,6 +568,26 @@ impl<'a> LoweringManager<'a> {
         wasm::InlineInstruction::Const(i32::try_from(*index).unwrap())
       }
     }
+  }
+
+  /// Lower an expression that is about to be stored into a slot of type `expected`. A variable stored as
+  /// (ref eq), e.g. the type-erased `_this` of a method that is used as a closure, must be cast first when
+  /// the slot has a specific struct type.
+  fn lower_expr_for_slot(
+    &mut self,
+    e: &lir::Expression,
+    expected: wasm::Type,
+  ) -> wasm::InlineInstruction {
+    let lowered = self.lower_expr(e);
+    if let (wasm::Type::Reference(target), lir::Expression::Variable(n, _)) = (expected, e)
+      && matches!(self.local_variables.get(n), Some(wasm::Type::Eq))
+    {
+      return wasm::InlineInstruction::Cast {
+        pointer_type: lir::Type::Id(target),
+        value: Box::new(lowered),
+      };
+    }
+    lowered
   }
 
   fn lower_expr_with_reference_type(
